@@ -5,13 +5,14 @@ Theorems about the model of the wire format (`PubgrubModel/Serde.lean`: `Json` =
 data model; `encRange`/`decRange` = `#[serde(transparent)]` + serde's externally tagged `Bound` + the
 untagged `EitherInterval` tried `B` then `D`; `SemanticVersion` = its Display string).  The serde /
 serde_json / ron libraries themselves are trusted (DESIGN.md section 8).
-Open (covered by the correspondence only): the `OfflineDependencyProvider` round trip (nested maps:
-its JSON text is produced by the model driver and compared with the real one, and the real provider is
-deserialized, compared and resolved by the oracle); RON support of the round trip (the pinned
+The `OfflineDependencyProvider` round trip is `C19_provider_roundtrip` (nested maps; the decoded store
+answers every query — dependencies, versions, packages, choose_version, prioritize — like the original,
+so resolving against it is the same run by C07).  Not modelled: RON support of the round trip (the pinned
 `ron 0.9.0-alpha.0` cannot read back an untagged enum containing `Bound`, see DESIGN.md section 9).
 -/
 import PubgrubProofs.SerdeLaws
 import PubgrubProofs.SemVerLaws
+import PubgrubProofs.ProviderSerde
 
 namespace Pubgrub.C19
 open Pubgrub Pubgrub.Serde Bound
@@ -45,6 +46,19 @@ theorem C19_legacy_nat (pairs : List (Nat × Option Nat)) :
 /-- SemanticVersion round trip -/
 theorem C19_semver_roundtrip (v : SemVer) (hv : v.Valid) : decSemVer (encSemVer v) = some v :=
   decSemVer_encSemVer v (SemVer.parse_display v hv)
+
+/-- OfflineDependencyProvider: deserialize ∘ serialize yields a provider with the same packages,
+versions, dependencies and the same answers to `choose_version` / `prioritize` -/
+theorem C19_provider_roundtrip {P S V : Type} [DecidableEq P] [LinearOrder V]
+    [VersionSet S V] (keyP : P → String) (keyV : V → String) (encS : S → Json)
+    (readP : String → Option P) (readV : String → Option V) (decS : Json → Option S)
+    (hP : ∀ p, readP (keyP p) = some p) (hV : ∀ v, readV (keyV v) = some v)
+    (hS : ∀ s, decS (encS s) = some s) (ops : List (Offline.AddOp P S V)) :
+    ∃ o', Offline.decProvider readP readV decS (Offline.encProvider keyP keyV encS (Offline.run ops)) = some o' ∧
+      (∀ p v, Offline.getDependencies o' p v = Offline.getDependencies (Offline.run ops) p v) ∧
+      (∀ p s, Offline.chooseVersion o' p s = Offline.chooseVersion (Offline.run ops) p s) ∧
+      (∀ p s, Offline.matchingCount o' p s = Offline.matchingCount (Offline.run ops) p s) :=
+  Offline.decProvider_encProvider_queries (keyP := keyP) (readP := readP) (keyV := keyV) (readV := readV) (encS := encS) (decS := decS) (hP := hP) (hV := hV) (hS := hS) (ops := ops)
 
 /-! Non-vacuity -/
 example : decRange decNat (.arr [.arr [.num 1, .num 3], .arr [.num 5, .null]]) =
